@@ -130,6 +130,9 @@ def run(ck: Checker):
     check_wait_config(ck, 'C09-4', ck.repo.func(WORKER, 'Worker.__init__'), param='batch_wait_time', attr='self.batch_wait_time')
     # ---------------------------------------------------------------- C09-3
     check_one_destination(ck, 'C09-3')
+    ck.rule('C09-7', 'a started batch is handed over on every exit of _get_input_batch; the queue locks are per queue and not disabled (the collector blocks in get() holding the read lock of ONE queue; several workers write to one pipe under its writer lock)', minimum=3)
+    check_batch_returned(ck, 'C09-7', mod.func('Worker._get_input_batch'))
+    check_queue_locks(ck, 'C09-7')
     # ---------------------------------------------------------------- C09-5
     check_buffer_spsc(ck, 'C09-5')
     # ---------------------------------------------------------------- C09-6
@@ -358,6 +361,55 @@ def check_wait_config(ck: Checker, rid: str, f: FuncInfo, *, param: str, attr: s
         if not ok:
             probs.append(f'L{st.lineno}: `{attr}` is set from `{norm_text(v)[:50]}`, not from the `{param}` the caller gave (with a default for None only)')
     ck.ob(rid, f, stores[0].ast if stores else f.node, not probs, '; '.join(sorted(set(probs))) if probs else f'`{attr}` is the caller\'s `{param}`; only `None` is replaced by a default')
+
+
+def check_batch_returned(ck: Checker, rid: str, f: FuncInfo):
+    """Once the first element of a batch has been taken, every way out of the function hands the batch over: a `return`
+    of anything else (the end marker that arrived in the middle of the batch, say) drops requests that were already taken
+    from the queue -- they are never passed to call() and never answered."""
+    cfg = build_cfg(f, ck.repo, None)
+    starts = [n for n in cfg.nodes if n.kind == 'stmt' and isinstance(n.ast, ast.Assign) and isinstance(n.ast.value, ast.List) and len(n.ast.value.elts) == 1 and isinstance(n.ast.targets[0], ast.Name)]
+    ck.need(starts, f'{f.key}: start of a batch (`out = [first]`) not found')
+    st = starts[0]
+    b = st.ast.targets[0].id
+    after = reachable(cfg, [e.dst for e in cfg.normal_succ(st.id)])
+    bad = [cfg.nodes[i] for i in after if cfg.nodes[i].kind == 'stmt' and isinstance(cfg.nodes[i].ast, ast.Return) and not is_name(cfg.nodes[i].ast.value, b)]
+    falls = [e for e in cfg.pred[cfg.exit_return] if e.src in after and not isinstance(cfg.nodes[e.src].ast, ast.Return)]
+    probs = [f'L{n.lineno}: `{norm_text(n.ast)}` leaves with the batch `{b}` already holding elements: they are dropped' for n in bad]
+    if falls:
+        probs.append('the function can fall off its end after a batch was started')
+    ck.ob(rid, f, st.ast, not probs, '; '.join(probs) if probs else f'every exit after `{norm_text(st.ast)}` returns `{b}`')
+
+
+def check_queue_locks(ck: Checker, rid: str):
+    """The read lock the collector holds while it blocks in get() belongs to one queue, and the pipe of a process queue
+    keeps its writer lock: `_rlock` of the thread queue is created per instance in __init__ (a class attribute would be
+    shared by every queue of the process: an idle reader of one queue would block the readers of all others), and
+    neither queue class disables a lock of its base class by overwriting it with None (several workers write to one
+    pipe; without the writer lock the bytes of large messages interleave)."""
+    mod = ck.repo.module(WORKER)
+    for cname in ('_SimpleThreadQueue', '_SimpleProcessQueue'):
+        cls = mod.cls(cname)
+        probs = []
+        for st in cls.node.body:
+            if isinstance(st, (ast.Assign, ast.AnnAssign)):
+                for t in (st.targets if isinstance(st, ast.Assign) else [st.target]):
+                    if isinstance(t, ast.Name) and t.id in ('_rlock', '_wlock') and getattr(st, 'value', None) is not None:
+                        probs.append(f'L{st.lineno}: `{t.id}` is a class attribute: one lock is shared by every `{cname}` of the process')
+        init = cls.method('__init__') if cls.has_method('__init__') else None
+        inst = {}
+        if init is not None:
+            for n in walk_shallow_func(init.node):
+                if isinstance(n, ast.Assign):
+                    for t in n.targets:
+                        if dotted(t) in ('self._rlock', 'self._wlock'):
+                            inst[dotted(t)] = n.value
+        for k, v in inst.items():
+            if is_none(v):
+                probs.append(f'`{k} = None` disables the lock of the base class: concurrent {"writers" if "w" in k else "readers"} of one pipe are no longer serialised')
+        if cname == '_SimpleThreadQueue' and 'self._rlock' not in inst:
+            probs.append('`_rlock` is not created per instance in __init__')
+        ck.ob(rid, init or cls.node.name, (cls.node.lineno, cname), not probs, '; '.join(probs) if probs else ('`_rlock` is created per queue in __init__' if cname == '_SimpleThreadQueue' else 'the reader / writer locks of multiprocessing.queues.SimpleQueue are kept'))
 
 
 def check_one_destination(ck: Checker, rid: str):
